@@ -143,11 +143,14 @@ def copyInPlaceStamp : List String := ["*v = *s"]
 def copyInPlaceLink : List String := ["*v = *l"]
 def headerValidated : List String := ["UUID", "Digest", "Stamps", "Links"]
 def rulesStamps : List String :=
-  ["validation.When( !internal.IsSigned(ctx), validation.Empty, )", "DetectDuplicateStamps"]
-def rulesLinks : List String := ["DetectDuplicateLinks"]
+  ["validation.When( !internal.IsSigned(ctx), validation.Empty, )", "validation.By(noNullEntries)",
+   "DetectDuplicateStamps"]
+/- `noNullEntries` (/repo f5b3b23) refuses a JSON null inside stamps / links: lists of the model
+   hold entries only, so the rule never fires on a state the model can be in. -/
+def rulesLinks : List String := ["validation.By(noNullEntries)", "DetectDuplicateLinks"]
 def rulesDigest : List String := ["validation.Required"]
 def stampInConds : List String := ["r != nil && s.Provider == r.Provider"]
 def dupStampConds : List String := ["!ok", "v == nil", "v.In(set)"]
-def dupLinkConds : List String := ["!ok || len(values) == 0", "l := LinkByKey(set, v.Key); l != nil"]
+def dupLinkConds : List String := ["!ok || len(values) == 0", "v == nil", "l := LinkByKey(set, v.Key); l != nil"]
 
 end GoblVerif.WrittenAgainst
